@@ -133,9 +133,6 @@ func runC15Mpt(ops []string) CaseResult {
 			out = pruneInChild(f[1:])
 			if out != "ok" && out != "err" {
 				fail("PruneBelowVersion over damaged dead-node records ends the process: %s", out)
-				if inflatedMapHeader(f[1:]) {
-					res.Finding = "C15-deadnodes-alloc"
-				}
 			}
 			tags["prune:child-process"] = true
 		default:
@@ -175,23 +172,6 @@ func pruneInChild(vals []string) string {
 		return "crash"
 	}
 	return o
-}
-
-// inflatedMapHeader is the matcher of known finding C15-deadnodes-alloc: some record is {"Nodes": <map32 header>...}
-// whose declared entry count exceeds what the remaining bytes could hold (each entry needs >= 2 bytes) by 2^24 or more.
-func inflatedMapHeader(vals []string) bool {
-	for _, v := range vals {
-		b := unhx(v)
-		i := bytes.Index(b, []byte("\xa5Nodes\xdf"))
-		if i < 0 || len(b) < i+11 {
-			continue
-		}
-		cnt := uint64(binary.BigEndian.Uint32(b[i+7 : i+11]))
-		if cnt >= uint64(len(b)-i-11)/2+1<<24 {
-			return true
-		}
-	}
-	return false
 }
 
 // ---- real encodings from the harness's own encoder ---------------------------------------------------------
@@ -469,7 +449,7 @@ func genPruneCase(r *rand.Rand) []string {
 		if c == 5 {
 			// a map32 header announcing up to 2^32-1 entries: run in a child process
 			op = "prunex"
-			cnt := []uint32{0xffffffff, 0xc0000000, 0x00200000}[r.Intn(3)]
+			cnt := []uint32{0xffffffff, 0xc0000000, 0x10000000, 0x00200000}[r.Intn(4)]
 			rec := append([]byte{0x81}, msgpStr("Nodes")...)
 			rec = append(rec, 0xdf, byte(cnt>>24), byte(cnt>>16), byte(cnt>>8), byte(cnt))
 			vals[r.Intn(len(vals))] = rec
